@@ -8,6 +8,7 @@ CONSTANTS
   BaseKey = FALSE
   AliasProps = FALSE
   CacheBeforeMember = FALSE
+  NoImportFallback = FALSE
   Faults = TRUE
 INVARIANT PureResults
 INVARIANT KeyInjective
